@@ -174,6 +174,14 @@ def run(tier: str) -> int:
     for lang, origin, text in harvested:
         sel = rng.sample(scripts, min(b["scripts_per_corpus"], len(scripts)))
         jobs.append((lang, text, sel, b["points"], origin, rng.randrange(1 << 30)))
+    # regions a lexer hands out as comment tokens of an unusual kind: code disabled by the preprocessor
+    IF0 = ("int compute(int a) {\n  int r = a;\n#if 0\n  r = old_way(a);\n  if (r) {\n    r = r + 1;\n  }\n  log(r);\n#endif\n  return r;\n}\n\n"
+           "int other(int b) {\n#if 0\n  legacy(b);\n  more(b);\n#else\n  b = b + 1;\n#endif\n  return b;\n}\n")
+    special = [("C", "special/if0.c", IF0), ("C++", "special/if0.cpp", IF0)]
+    for lang, origin, text in special:
+        for _rep in range(3):  # three independent choices of points
+            sel = rng.sample(scripts, min(b["scripts_per_corpus"], len(scripts)))
+            jobs.append((lang, text, sel, b["points"], origin, rng.randrange(1 << 30)))
     res = pmap(run_text, jobs, timeout=900, chunk=1)
     events, skipped_unstable, skipped_base, unbound = [], 0, [], 0
     for job, r in zip(jobs, res):
